@@ -461,3 +461,105 @@ def non_empty_folder_delete_waits(w: World):
         check(p0 > 0, "finished only after having been punted at least once")
     for c in provider_calls():
         check(c.side == synced, "only the synced side is listed")
+
+
+@lemma(props=["C05"], configs="none", raises=["CloudTemporaryError"])
+def safe_call_resolver_table(w: World):
+    """L5.1: decision table of the resolver wrapper.  Directory-vs-file: the directory handle wins with keep=True and
+    the resolver is not called.  Otherwise the resolver is called exactly once with the two handles; a well-formed
+    answer is returned unchanged; None / a non-tuple / a wrong-length tuple / a non-file-like first element / any
+    non-temporary exception fall back to (remote handle, keep=True); CloudTemporaryError is re-raised."""
+    mgr = w.mgr
+    f0 = w.resolve_file("f0", 0)
+    f1 = w.resolve_file("f1", 1)
+    fhs = [f0, f1]
+    ret = mgr._SyncManager__safe_call_resolver(fhs)
+    beh = resolver_behaviour()
+    rc = calls("resolve_conflict")
+    check(len(rc) <= 1, "the resolver is called at most once")
+    dir_vs_file = (f0.otype == DIRECTORY or f1.otype == DIRECTORY) and f0.otype != f1.otype
+    if dir_vs_file:
+        check(len(rc) == 0, "directory against file: the resolver is not called")
+        check(ret[0] is (f0 if f0.otype == DIRECTORY else f1) and ret[1] is True, "the directory wins and the file is kept")
+    else:
+        check(len(rc) == 1 and rc[0].args[0] is f0 and rc[0].args[1] is f1, "the resolver gets the two sides' handles, in order")
+        if beh == "pick0":
+            check(ret[0] is f0, "picked handle 0 is returned unchanged")
+        elif beh == "pick1":
+            check(ret[0] is f1, "picked handle 1 is returned unchanged")
+        elif beh == "merged":
+            check(ret[0] is not f0 and ret[0] is not f1, "merged data is returned unchanged")
+        else:
+            check(ret[0] is f1 and ret[1] is True, "no usable answer: the remote version wins and the local one is kept")
+
+
+@lemma(props=["C03", "C05"], configs="none", raises=["Exception"],
+       stubs={"cloudsync.sync.manager:SyncManager.embrace_change": {},
+              "cloudsync.sync.manager:SyncManager.handle_hash_conflict": {"results": ["None"]},
+              "cloudsync.sync.manager:SyncManager.path_conflict": {"results": ["False"], "raises": False, "havoc": False},
+              "cloudsync.sync.manager:SyncManager.finished": {"results": ["None"], "raises": False, "havoc": False}})
+def sync_dispatch(w: World):
+    """L5.3 / L3.3: sync() hands an entry to conflict handling exactly when both sides carry unsynchronised content
+    (hash_conflict), and otherwise never embraces a side that is flagged changed but has nothing to sync (no echo):
+    that side's flag is simply cleared"""
+    mgr = w.mgr
+    sync = w.entry("sync")
+    conflict = truthy(sync.hash_conflict())
+    ns0 = truthy(sync[0].needs_sync())
+    ns1 = truthy(sync[1].needs_sync())
+    corrupt0 = sync[0].is_corrupt
+    corrupt1 = sync[1].is_corrupt
+    r = mgr.sync(sync)
+    hc = calls("handle_hash_conflict")
+    em = calls("embrace_change")
+    check(len(provider_writes()) == 0, "sync itself writes nothing to a provider")
+    if conflict:
+        check(len(hc) == 1 and len(em) == 0, "different unsynchronised content on both sides goes to conflict handling, once")
+    else:
+        check(len(hc) == 0, "no conflict handling without a hash conflict")
+        check(len(em) <= 1, "at most one side is embraced per step")
+        for c in em:
+            side = c.args[1]
+            check(c.args[2] == 1 - side, "a change is embraced towards the other side")
+            check((side == 0 and (ns0 or corrupt1)) or (side == 1 and (ns1 or corrupt0)),
+                  "a side is embraced only if it needs syncing (or the other side is corrupt)")
+
+
+def _eligible(e, now_, age):
+    return e.priority < 0 or (truthy(e[0].changed) and e[0].changed <= now_ - age) or (truthy(e[1].changed) and e[1].changed <= now_ - age)
+
+
+def _sort_key(e):
+    return (e.priority, max(e[0].changed or 0, e[1].changed or 0))
+
+
+@lemma(props=["C17"], configs="none", raises=["Exception"], fixed_clock=True)
+def change_returns_only_aged_entries(w: World, age: float):
+    """L17.1: the entry handed out for syncing is a member of the pending set and is eligible: its priority is negative
+    ('immediately') or one of its change flags is at least `age` old according to the clock read inside the call;
+    with age == 0 every flagged entry whose flag is not in the future is eligible"""
+    state = w.state
+    assume(age >= 0)
+    r = state.change(age)
+    if r is not None:
+        check(in_changeset(state, r), "the entry comes from the pending set")
+        check(_eligible(r, now(), age), "and is eligible (aged, or negative priority)")
+
+
+@lemma(props=["C17"], configs="none", raises=["Exception"], fixed_clock=True)
+def change_prefers_lower_priority_then_older(w: World, age: float):
+    """L17.2: among eligible pending entries the one handed out has the smallest (priority, newest change time):
+    no other eligible entry of the pending set sorts strictly before it; and if some pending entry is eligible the
+    call does not come back empty-handed"""
+    state = w.state
+    other = w.entry("other")
+    assume(age >= 0)
+    assume(in_changeset(state, other))
+    assume(truthy(other[0].path) and truthy(other[1].path))      # no path fill-in for this entry
+    k_other = _sort_key(other)
+    el_other = _eligible(other, now(), age)
+    r = state.change(age)
+    if el_other:
+        check(r is not None, "an eligible pending entry exists: something is handed out")
+        if r is not other:
+            check(not (k_other < _sort_key(r)), "nothing eligible sorts strictly before the entry handed out")
